@@ -201,7 +201,8 @@ def blk_case(draw, tier, shard=0, nshards=1):
     p["n_batch"] = 1
     nf = draw(st.sampled_from([0, 1, 1, 2]))
     # one fixed fault position per configuration (static for jit); the injected value varies
-    p.update({"n_prop_steps": c["steps"], "n_ene_blocks": c["ene"], "n_sr_blocks": c["sr"], "fault": [[i, i % 2, draw(st.integers(0, len(FAULTS) - 1))] for i in range(nf)], "perturb": 0.05, "calls": draw(st.integers(1, 3))})
+    p.update({"n_prop_steps": c["steps"], "n_ene_blocks": c["ene"], "n_sr_blocks": c["sr"], "fault": [[i, i % 2, draw(st.integers(0, len(FAULTS) - 1))] for i in range(nf)], "perturb": 0.05, "calls": draw(st.integers(1, 3)),
+              "entry": ["plain", "ad_nosr", "ad", "ad_nosr_norot"][BLK_CONFIGS.index(c) % 4]})
     return p
 
 
@@ -218,10 +219,14 @@ def blk_body(ctx, case):
     pd = P.prop_data(hd, perturb=float(case["perturb"]))
     smp = sampling.sampler(n_prop_steps=int(case["n_prop_steps"]), n_ene_blocks=int(case["n_ene_blocks"]), n_sr_blocks=int(case["n_sr_blocks"]), n_blocks=1)
     tagp = f"phaseless-block:{P.wt}"
-    ctx.case(case, nontrivial=bool(fault), classes=[tagp, f"dt={P.dt}", f"faults={len(fault)}"] + [f"fault-value={FAULTS[f[2]]!r}" for f in fault])
+    ctx.case(case, nontrivial=bool(fault), classes=[tagp, f"dt={P.dt}", f"faults={len(fault)}", "entry:" + case.get("entry", "plain")] + [f"fault-value={FAULTS[f[2]]!r}" for f in fault])
     for call in range(int(case["calls"])):
         try:
-            e, pd = smp.propagate_phaseless(P.ham, hd, prop, pd, P.trial, P.wave_data)
+            if case.get("entry", "plain") == "plain":
+                e, pd = smp.propagate_phaseless(P.ham, hd, prop, pd, P.trial, P.wave_data)
+            else:
+                fn = {"ad": smp.propagate_phaseless_ad, "ad_nosr": smp.propagate_phaseless_ad_nosr, "ad_nosr_norot": smp.propagate_phaseless_ad_nosr_norot}[case["entry"]]
+                e, pd = fn(P.ham, hd, 0.0, 0.0 * hd["h1"], prop, pd, P.trial, P.wave_data)
         except Exception as ex:
             ctx.fail(f"{tagp}:raised-{type(ex).__name__}", case, f"{type(ex).__name__}: {str(ex)[:200]}")
             return
